@@ -96,6 +96,16 @@ CHECKS = {
          "For each of the 14 supported quantities, with f32 and f64 storage: every suffix string up to length 3/4 over letters `.` `/` and up to length 4/6 over the SCPI unit vocabulary, every documented suffix, over-long and malformed suffixes; every accepted suffix in all 2^len case variants x 6 literals must scale by the SCPI factor (relative 2e-6 / 1e-12); every non-derivable suffix and every non-numeric element must be refused; bare numbers are taken in the base unit; Amplitude (PK/PP/RMS) and Db (DB*) forms are classified with the number unchanged.",
          "Trusted: the rule oracle in c18.rs (multiplier table from IEEE 488.2 7.7.3 / SCPI-99, unit names and SI factors per quantity). Suffixes allowed by the rules but not implemented (e.g. GV) give no verdict; suffixes in the library's documented tables must be accepted.",
          "DESIGN.md section 5 (C18)"),
+ "C17": ("exploration",
+         "exhaustive enumeration over (token, underlying type, (min,max,default) configuration) grids with a direct transcription of the property as oracle",
+         "~290 tokens (every case pattern, prefix and near miss of MAXimum MINimum DEFault UP DOWN, float keywords, literals around every bound and half, suffixed numbers, other element types) x 8 underlying types (4 integer widths, f32, f64, Frequency, Time) x ~90 configurations over a 7-point grid per type incl. type extremes, infinities and min = max, through all three resolution entry points; plus every grid value, NaN and each keyword variant.",
+         "Trusted: the reference keyword matcher of C03; non-keyword tokens are compared differentially with the underlying type's own conversion (decided by C07/C08/C18). Configurations keep min <= default <= max.",
+         "DESIGN.md section 5 (C17)"),
+ "C20": ("exploration",
+         "a family of ~630 enum definitions generated at build time and compiled with the real derive macro; every candidate string up to a bound per enum against the reference matcher",
+         "Every subset of size 1..3 of a 12-mnemonic pool (suffixed siblings ALPHa1/ALPHa2, L125/L1, digits-only differences, suffix-less, long/short-only forms) with pairwise non-matching members, in several variant orders, with unit and single-field variants, compiled with #[derive(ScpiEnum)]; for each enum every candidate of length <= 4/5 over `aAbBlL125_` plus longer pool spellings: selection by from_mnemonic and TryFrom<Token> must agree with the reference matcher (else None / -224), other element types give -104, mnemonic() returns the declared literal, and each variant's response text selects the same variant when sent back.",
+         "Trusted: refmodel/mnemonic.rs (C03's reference), the build.rs generator. Enums with more than 3 variants and mnemonics outside the pool are not generated.",
+         "DESIGN.md section 5 (C20)"),
 }
 
 NOT_YET = "check not built yet (planned: DESIGN.md section 5 describes the bounded exhaustive exploration that will decide it)"
